@@ -32,7 +32,7 @@ def _order(P):
     return out
 
 
-def render(types, fns, vars_, place, lang="c", pubname="pub.h", pubdir="", shift=0):
+def render(types, fns, vars_, place, lang="c", pubname="pub.h", pubdir="", shift=0, privname="priv.h"):
     """-> dict relative path -> content"""
     P = cprog.Prog(types, fns, vars_, lang)
     order = _order(P)
@@ -48,14 +48,14 @@ def render(types, fns, vars_, place, lang="c", pubname="pub.h", pubdir="", shift
     pub += [P.define(i) for i in order if where(i) == "pub"] + ["#endif"]
     priv = ["/* private header */", "#ifndef VERIF_PRIV_H", "#define VERIF_PRIV_H"] + [P.define(i) for i in order if where(i) == "priv"] + ["#endif"]
     rel = "/".join(x for x in ("..", "include", pubdir, pubname) if x)
-    src = ['#include "%s"' % rel, '#include "priv.h"'] + [P.define(i) for i in order if where(i) == "src"]
+    src = ['#include "%s"' % rel, '#include "%s"' % privname] + [P.define(i) for i in order if where(i) == "src"]
     st = dict(cprog.DEFAULT_STYLE)
     for f in fns:
         src.append(P.fn_def(f, st))
     for v in vars_:
         src.append(P.var_def(v))
     pubpath = "/".join(x for x in ("include", pubdir, pubname) if x)
-    return {pubpath: "\n".join(pub) + "\n", "src/priv.h": "\n".join(priv) + "\n", "src/lib.c": "\n".join(src) + "\n"}, pubpath
+    return {pubpath: "\n".join(pub) + "\n", ("src/" + privname): "\n".join(priv) + "\n", "src/lib.c": "\n".join(src) + "\n"}, pubpath
 
 
 def build(root, files, cc="gcc", flags=("-g",)):
